@@ -187,9 +187,10 @@ func wspDial(addr, path string) (w *wspClient, err error) {
 		return nil, err
 	}
 	w = &wspClient{ctl: ctl}
+	built := w // "return nil, err" clears the named result before the deferred function runs
 	defer func() {
 		if err != nil { // a half-built client must not leave its sessions open on the server
-			w.close()
+			built.close()
 			w = nil
 		}
 	}()
